@@ -78,27 +78,27 @@ Lemma adv_app st a b : adv st (a ++ b) = adv (adv st a) b.
 Proof. apply adv_l_app. Qed.
 Lemma lenv_app st a b : lenv st (a ++ b) = lenv st a ++ lenv (adv st a) b.
 Proof. apply cat_l_app. Qed.
-Lemma sem_app N E brk st a b : sem N E brk st (a ++ b) = sem N E brk st a ++ sem N E brk (adv st a) b.
+Lemma sem_app N C E brk st a b : sem N C E brk st (a ++ b) = sem N C E brk st a ++ sem N C E brk (adv st a) b.
 Proof. apply cat_l_app. Qed.
 
 Lemma adv_cons st x t : adv st (x :: t) = adv (adv_s st x) t.
 Proof. reflexivity. Qed.
 Lemma lenv_cons st x t : lenv st (x :: t) = lenv_s st x ++ lenv (adv_s st x) t.
 Proof. reflexivity. Qed.
-Lemma sem_cons N E brk st x t : sem N E brk st (x :: t) = sem_s N E brk st x ++ sem N E brk (adv_s st x) t.
+Lemma sem_cons N C E brk st x t : sem N C E brk st (x :: t) = sem_s N C E brk st x ++ sem N C E brk (adv_s st x) t.
 Proof. reflexivity. Qed.
 Lemma adv_nil st : adv st [] = st. Proof. reflexivity. Qed.
 Lemma lenv_nil st : lenv st [] = []. Proof. reflexivity. Qed.
-Lemma sem_nil N E brk st : sem N E brk st [] = []. Proof. reflexivity. Qed.
+Lemma sem_nil N C E brk st : sem N C E brk st [] = []. Proof. reflexivity. Qed.
 
 (* unfolding the structured statements in terms of the block-level functions *)
 Lemma adv_s_loop st k b : adv_s st (SLoop k b) = real (adv st b).
 Proof. reflexivity. Qed.
 Lemma lenv_s_loop st k b : lenv_s st (SLoop k b) = lenv st b.
 Proof. reflexivity. Qed.
-Lemma sem_s_loop N E brk st k b :
-  sem_s N E brk st (SLoop k b) =
-  sem N E (Some (real (adv st b))) st b ++ [(snd (adv st b), None, BJump (k_if k) (Some st) None)].
+Lemma sem_s_loop N C E brk st k b :
+  sem_s N C E brk st (SLoop k b) =
+  sem N C E (Some (real (adv st b))) st b ++ [(snd (adv st b), None, BJump (k_if k) (Some st) None)].
 Proof. reflexivity. Qed.
 
 (* one-step unfoldings as rewrite rules (cbn unfolds too much under nested fixpoints) *)
@@ -110,12 +110,12 @@ Lemma lenv_s_label st l : lenv_s st (SLabel l) = [(l, st)]. Proof. reflexivity. 
 Lemma lenv_s_no st : lenv_s st SNo = []. Proof. reflexivity. Qed.
 Lemma lenv_s_jump st d k l t : lenv_s st (SJump d k l t) = []. Proof. reflexivity. Qed.
 Lemma lenv_s_break st d k : lenv_s st (SBreak d k) = []. Proof. reflexivity. Qed.
-Lemma sem_s_label N E brk st l : sem_s N E brk st (SLabel l) = []. Proof. reflexivity. Qed.
-Lemma sem_s_no N E brk st : sem_s N E brk st SNo = []. Proof. reflexivity. Qed.
-Lemma sem_s_jump N E brk st d k l t :
-  sem_s N E brk st (SJump d k l t) = [(snd st, d, BJump (k_if k) (E l) t)]. Proof. reflexivity. Qed.
-Lemma sem_s_break N E brk st d k :
-  sem_s N E brk st (SBreak d k) = [(snd st, d, BJump (k_if k) brk None)]. Proof. reflexivity. Qed.
+Lemma sem_s_label N C E brk st l : sem_s N C E brk st (SLabel l) = []. Proof. reflexivity. Qed.
+Lemma sem_s_no N C E brk st : sem_s N C E brk st SNo = []. Proof. reflexivity. Qed.
+Lemma sem_s_jump N C E brk st d k l t :
+  sem_s N C E brk st (SJump d k l t) = [(snd st, d, BJump (k_if k) (E l) t)]. Proof. reflexivity. Qed.
+Lemma sem_s_break N C E brk st d k :
+  sem_s N C E brk st (SBreak d k) = [(snd st, d, BJump (k_if k) brk None)]. Proof. reflexivity. Qed.
 #[export] Hint Rewrite adv_app lenv_app @sem_app adv_cons lenv_cons @sem_cons adv_nil lenv_nil @sem_nil
   adv_s_label adv_s_no adv_s_jump adv_s_break lenv_s_label lenv_s_no lenv_s_jump lenv_s_break
   @sem_s_label @sem_s_no @sem_s_jump @sem_s_break adv_s_loop lenv_s_loop @sem_s_loop
@@ -127,6 +127,19 @@ Definition chain_end (st : state) (bs : list (cond * list stmt)) (els : option (
   | Some b => adv (chain_adv adv false st bs) b
   end.
 Lemma adv_s_chain st bs els : adv_s st (SChain bs els) = chain_end st bs els.
+Proof. destruct els; reflexivity. Qed.
+
+Lemma lenv_s_chain st bs els :
+  lenv_s st (SChain bs els) =
+  chain_cat adv lenv (fun _ _ _ => []) (fun _ => []) (is_none els) st bs
+  ++ match els with None => [] | Some b => lenv (chain_adv adv (is_none els) st bs) b end.
+Proof. reflexivity. Qed.
+Lemma sem_s_chain N C E brk st bs els :
+  sem_s N C E brk st (SChain bs els) =
+  chain_cat adv (sem N C E brk)
+            (fun st c tgt => [(snd st, None, BJump (k_unless N C c) (Some tgt) None)])
+            (fun st' => [(snd st', None, BJump KU (Some (chain_end st bs els)) None)]) (is_none els) st bs
+  ++ match els with None => [] | Some b => sem N C E brk (chain_adv adv (is_none els) st bs) b end.
 Proof. destruct els; reflexivity. Qed.
 
 (* ------------------------------------------------------------------------------------------ *)
@@ -149,7 +162,7 @@ End ChainFacts.
 (* ------------------------------------------------------------------------------------------ *)
 (* a program without `break` does not look at the loop-end position *)
 
-Lemma no_break_irrel_s N E b1 b2 s : no_break_s s = true -> forall st, sem_s N E b1 st s = sem_s N E b2 st s.
+Lemma no_break_irrel_s N C E b1 b2 s : no_break_s s = true -> forall st, sem_s N C E b1 st s = sem_s N C E b2 st s.
 Proof.
   induction s using stmt_ind2; intros Hnb st; cbn in *; try reflexivity; try discriminate.
   (* a loop body refers to that loop's own end in both; remains: chain *)
@@ -162,7 +175,7 @@ Proof.
       rewrite Forall_forall in *. intros x Hx st'. apply H0; auto.
 Qed.
 
-Lemma no_break_irrel N E b1 b2 p : no_break p = true -> forall st, sem N E b1 st p = sem N E b2 st p.
+Lemma no_break_irrel N C E b1 b2 p : no_break p = true -> forall st, sem N C E b1 st p = sem N C E b2 st p.
 Proof.
   intros H st. apply cat_l_ext. unfold no_break in H. rewrite forallb_forall in H. rewrite Forall_forall.
   intros x Hx st'. apply no_break_irrel_s; auto.
